@@ -57,6 +57,9 @@ pub fn minimize(l: &[u8], s: &[u8], r: &[u8]) -> String {
     match res {
         None => {
             if changed || li != LanguageIdentifier::from_parts(la, sc, rg, &[]) { return "INCONSISTENT method changed but function returned None".into(); }
+            // minimize(maximize(x)) == minimize(x) also when nothing changes
+            let mo = maxed(la, sc, rg);
+            if let Some(t2) = likelysubtags::minimize(mo.0, mo.1, mo.2) { return format!("LAWFAIL minimize(maximize(x)) = {} but minimize(x) leaves x unchanged", fmt3(&t2)); }
             "NONE".into()
         }
         Some(t) => {
